@@ -406,6 +406,10 @@ func (t *Tokenizer) Tokenize(input []byte) ([]models.TokenWithSpan, error) {
 	// Record start time for metrics
 	startTime := time.Now()
 
+	// Reset state first: nothing of an earlier run (Comments, positions) may be
+	// left on the instance when this call fails early
+	t.Reset()
+
 	// Validate input size to prevent DoS attacks
 	if len(input) > MaxInputSize {
 		err := errors.InputTooLargeError(int64(len(input)), MaxInputSize, models.Location{Line: 1, Column: 0})
@@ -413,8 +417,6 @@ func (t *Tokenizer) Tokenize(input []byte) ([]models.TokenWithSpan, error) {
 		return nil, err
 	}
 
-	// Reset state
-	t.Reset()
 	t.input = input
 
 	// Pre-allocate line starts slice - reuse if possible
@@ -534,6 +536,10 @@ func (t *Tokenizer) Tokenize(input []byte) ([]models.TokenWithSpan, error) {
 //	    // Handle timeout
 //	}
 func (t *Tokenizer) TokenizeContext(ctx context.Context, input []byte) ([]models.TokenWithSpan, error) {
+	// Reset state first: nothing of an earlier run (Comments, positions) may be
+	// left on the instance when this call fails early
+	t.Reset()
+
 	// Check context before starting
 	if err := ctx.Err(); err != nil {
 		return nil, err
@@ -549,8 +555,6 @@ func (t *Tokenizer) TokenizeContext(ctx context.Context, input []byte) ([]models
 		return nil, err
 	}
 
-	// Reset state
-	t.Reset()
 	t.input = input
 
 	// Pre-allocate line starts slice - reuse if possible
